@@ -63,7 +63,7 @@ type ContractDB struct {
 	Files []string
 }
 
-var clauseKw = map[string]bool{"requires": true, "ensures": true, "assigns": true, "loop": true, "emits": true, "let": true, "opt": true, "walk": true, "panics": true, "succeeds": true}
+var clauseKw = map[string]bool{"requires": true, "ensures": true, "assigns": true, "loop": true, "emits": true, "emits_filtered": true, "let": true, "opt": true, "walk": true, "panics": true, "succeeds": true}
 var propRe = regexp.MustCompile(`^C[0-9]{2,3}$`)
 
 // LoadContracts parses all zz_verif_contracts.go files of the given package dirs.
@@ -225,7 +225,7 @@ func (c *Contract) Prepare() error {
 			} else {
 				cl.nodes, err = ParseSpecList(strings.ReplaceAll(cl.Text, "*", "$any"))
 			}
-		case "emits":
+		case "emits", "emits_filtered":
 			cl.nodes, err = ParseSpecList(cl.Text)
 		}
 		if err != nil {
